@@ -344,6 +344,17 @@ def run(prog, rep, tier):
             else:
                 ok = pa.place is not None and must_derive_captured(prog, fw, bd, pa.place[0], is_self_path, extra_transparent=('as_path', 'as_ref', 'deref', 'borrow', 'clone'))
             rep.ob('R16.3', bool(ok), 'R16.3|%s|opens-only-self.path' % fw.nkey, 'FileWriter::write opens only self.path' if ok else 'FileWriter::write opens a path other than self.path', bd.loc(b.idx))
+            # "with exactly their content": a destination reopened after its descriptor was evicted from the pool continues at its end (append), it is
+            # neither truncated nor rewritten from offset 0
+            if cnorm(b.term) == 'std::fs::OpenOptions::open':
+                _, how = created_empty(bd, b)
+                st_ = dict(eval(how.split(' ', 1)[1])) if how.startswith('OpenOptions ') else {}
+                oka = st_.get('append') == 1 and st_.get('truncate') != 1
+                rep.ob('R16.6', oka, 'R16.6|%s|reopen-appends' % fw.nkey, 'the destination is reopened in append mode' if oka else
+                       'FileWriter::write reopens the destination without append (%s): once its descriptor has been evicted from the pool, the next block of the member '
+                       'overwrites what was already extracted' % how, bd.loc(b.idx))
+            elif cnorm(b.term) in ('std::fs::File::create', 'std::fs::File::create_new'):
+                rep.ob('R16.6', False, 'R16.6|%s|reopen-appends' % fw.nkey, 'FileWriter::write re-creates (truncates) the destination when it reopens it', bd.loc(b.idx))
 
     # ---------------- R16.4 sink census
     tbl_path = os.path.join(os.path.dirname(os.path.dirname(os.path.dirname(os.path.abspath(__file__)))), 'tables', 'fs_sinks.json')
